@@ -3,6 +3,7 @@ CONSTANTS
  C = 3
  N = 9
  Counts <- CountsV
+ Corrs <- Ident
 INVARIANT PrefixOfSet
 INVARIANT PeekIsNextPop
 INVARIANT EndsRight
